@@ -142,7 +142,8 @@ pub fn case(idx: u64, seed: u64, p: &Params, o: &mut CaseOut) {
         // Dijkstra half
         let (m, src, fam) = c03::gen_case(&mut r, p.usize("max_order", 20));
         let n = m.n();
-        let d = build_w_usize(&m);
+        let k = usize_scale(&mut r, &m);
+        let d = build_w_usize_scaled(&m, k);
         let dist = m.dist_from(&src).expect("harness: negative circuit");
         let tree = DijkstraPred::new(&d, src.iter().copied()).predecessors();
         check_tree(o, "DijkstraPred::predecessors", &tree.pred, &m, &src, &dist);
@@ -169,12 +170,15 @@ pub fn case(idx: u64, seed: u64, p: &Params, o: &mut CaseOut) {
         }
         o.nontrivial = nontrivial;
         o.bump("DijkstraPred");
+        if k > 1 {
+            o.bump("weights_scaled_up");
+        }
         o.bump(fam);
         if sup {
             o.bump("superseded_pop_cases");
         }
         if o.want_desc {
-            o.desc = format!("DijkstraPred family={fam} {} sources={src:?}", m.describe());
+            o.desc = format!("DijkstraPred family={fam} {} sources={src:?} (every weight multiplied by {k})", m.describe());
         }
     } else {
         let (m, src, fam) = c04::gen_case(&mut r, p.usize("max_order", 20));
